@@ -85,7 +85,16 @@ private:
     return !key_comp()(k1, k2) && !key_comp()(k2, k1);
   }
 
-  void resort() { std::sort(_data.begin(), _data.end(), value_comp()); }
+  //! sort by key and keep only the first element of each run of equal keys
+  //! (a map holds at most one value per key)
+  void resort() {
+    std::stable_sort(_data.begin(), _data.end(), value_comp());
+    _data.erase(std::unique(_data.begin(), _data.end(),
+                            [this](const value_type& a, const value_type& b) {
+                              return !value_comp()(a, b) && !value_comp()(b, a);
+                            }),
+                _data.end());
+  }
 
 public:
   typedef typename _Pair_alloc_type::pointer pointer;
